@@ -13,6 +13,12 @@ Oracle (independent of the Lean model), for every `Success` / `PartialFailure`:
                  batteries behind the inverters called, from the component graph)
   failed-set   : failed_components = the addressed components whose (inverter's) call failed
   no-result    : calls were made but no result was sent
+Concurrent cases (`"kind": "concurrent"`): 2-3 requests for DISJOINT component sets of one manager (2-3 PV pools /
+2 battery groups), different powers and signs, request k sent `at_us` after the first — while the `set_power`
+calls of the others are pending (the actor runs them concurrently).  Every result is matched to its request by
+the `request` object it carries, the recorded calls by the components they address, and the clauses above are
+checked for EACH result against ITS OWN request; the model is run on each request alone
+(`C15_result_independent_of_concurrent_requests`).
 Numbers are compared exactly when the case lives on the exact lattice (dyadic set-points, PV values that are
 multiples of 120 so that every share is exact), and to 1e-9 relative otherwise (real distribution algorithm).
 Correspondence: the same case through `Drivers/Results.lean` (fixed behaviour of the PV manager) — result
@@ -34,6 +40,9 @@ RULE = ("battery: topology (1-4 inverters; 1:1, one inverter with two batteries,
         "generated component data) x outcome per call from {ok, out-of-range, client error, exception, timeout} with "
         "delays around the timeout; PV: 1-5 inverters with lattice bounds (ties, zero, positive), shuffled order, "
         "request inside/beyond/zero/positive x outcome per call; non-trivial = at least one call failed or excess != 0; "
+        "concurrent: 2-3 such PV requests over disjoint inverter sets / 2 battery requests over disjoint groups of one "
+        "manager, later ones arriving 0 us - 4.9995 s after the first while its calls are pending, each result checked "
+        "against its own request; "
         "bounded-exhaustive: all 5^n outcome vectors for n <= 2 (quick) / n <= 4 (thorough); distinct by JSON hash")
 
 BAT_TOPOLOGIES = [
@@ -117,9 +126,10 @@ def gen_battery_real(rng: random.Random) -> tuple[list, dict, list[dict]]:
     return topo, data, cases
 
 
-def gen_pv(rng: random.Random, n: int | None = None) -> dict:
-    n = n or rng.randint(1, 5)
-    ids = rng.sample(PV_IDS, n)
+def gen_pv(rng: random.Random, n: int | None = None, pool: list[int] | None = None) -> dict:
+    pool = pool or PV_IDS
+    n = n or rng.randint(1, min(5, len(pool)))
+    ids = rng.sample(pool, n)
     invs = [[i, str(rng.choice(PV_BOUNDS))] for i in ids]
     total = sum(int(b) for _, b in invs if int(b) < 0)
     P = rng.choice([0, 120, -120, -240, -360, -600, -1200, total, total - 120, total + 120, total // 120 // 2 * 120,
@@ -127,12 +137,68 @@ def gen_pv(rng: random.Random, n: int | None = None) -> dict:
     case = {"kind": "pv", "P": str(P), "invs": invs, "calls": {str(i): random_call(rng) for i in ids if rng.random() < 0.8},
             "exact": True}
     if rng.random() < 0.15:  # a requested inverter that is not working is not addressed at all
-        extra = [i for i in PV_IDS if i not in ids][:1]
+        extra = [i for i in pool if i not in ids][:1]
         case["extra_ids"] = extra
     if rng.random() < 0.1 and n <= 2:  # (n <= 2: only divisions by 1 and 2, exact in floats)
         case["P"] = rat(-Fraction(1, 2 ** rng.choice([40, 29])))  # around the is_close_to_zero tolerance
     case["working"] = [i for i, _ in invs]
     return case
+
+AT_US = [0, 0, 500, 1000, 1_000_000, 2_500_000, 4_999_500]
+
+
+def slow_call(rng: random.Random) -> dict:
+    """A call that is still pending when the next request arrives (any outcome, incl. never answering)."""
+    kind = rng.choice(g.OUTCOMES + ["ok", "ok"])
+    return {"kind": kind, "delay": 0 if kind == "timeout" else rng.choice([1000, 1_000_000, 2_500_000, 4_999_000, 7_000_000])}
+
+
+def gen_concurrent_pv(rng: random.Random) -> dict:
+    """2-3 PV pools with disjoint inverter sets addressing the one PVManager at overlapping times."""
+    ids = list(PV_IDS)
+    rng.shuffle(ids)
+    k = rng.choice([2, 2, 3])
+    cuts = sorted(rng.sample(range(1, len(ids)), k - 1))
+    pools = [ids[a:b] for a, b in zip([0] + cuts, cuts + [len(ids)])]
+    reqs = []
+    for n, pool in enumerate(pools):
+        sub = gen_pv(rng, pool=pool)
+        sub.pop("extra_ids", None)
+        if rng.random() < 0.7:
+            for i, _ in sub["invs"][:1]:
+                sub["calls"][str(i)] = slow_call(rng)
+        sub["at_us"] = 0 if n == 0 else rng.choice(AT_US)
+        reqs.append(sub)
+    return {"kind": "concurrent", "mgr": "pv", "reqs": reqs, "exact": True}
+
+
+def gen_concurrent_battery(rng: random.Random) -> dict:
+    """Two battery pools over disjoint inverter/battery groups of one BatteryManager."""
+    grid = rng.choice([BAT_TOPOLOGIES[1], BAT_TOPOLOGIES[2], BAT_TOPOLOGIES[3], BAT_TOPOLOGIES[6]])
+    cut = rng.randint(1, len(grid) - 1)
+    reqs = []
+    for n, topo in enumerate([grid[:cut], grid[cut:]]):
+        sub = gen_battery_stub(rng, topo)
+        if rng.random() < 0.7:
+            sub["calls"][str(sub["stub"]["dist"][0][0])] = slow_call(rng)
+        sub["at_us"] = 0 if n == 0 else rng.choice(AT_US)
+        reqs.append(sub)
+    return {"kind": "concurrent", "mgr": "battery", "topo": grid, "data": None, "reqs": reqs, "exact": True}
+
+
+def pending_us(sub: dict) -> int:
+    """How long the request has `set_power` calls outstanding (from the script; at least one loop turn)."""
+    longest = 0
+    for c in sub["calls"].values():
+        longest = max(longest, g.TIMEOUT_US if g.effective(c) == "timeout" else c["delay"])
+    return longest
+
+
+def overlaps(cc: dict) -> bool:
+    """Some request arrives while the calls of another one are pending (from the input only)."""
+    rs = cc["reqs"]
+    return any(a is not b and a.get("at_us", 0) <= b.get("at_us", 0) <= a.get("at_us", 0) + pending_us(a)
+               for a in rs for b in rs)
 
 
 # ----------------------------------------------------------------------------- oracle
@@ -142,12 +208,18 @@ def close(a: float, b: Fraction | float, exact: bool) -> bool:
     return abs(float(a) - float(b)) <= 1e-6 + 1e-9 * max(abs(float(a)), abs(float(b)))
 
 
-def oracle(ctx: Ctx, case: dict, obs: dict) -> set[str]:
+def oracle(ctx: Ctx, case: dict, obs: dict, whole: dict | None = None, index: int | None = None) -> set[str]:
+    """`case` = ONE request with its script, `obs` = what was observed for THAT request.  For a request of a
+    concurrent case, `whole` is the concurrent case (reported as the failing input) and `index` its position."""
     tags = {case["kind"]}
     exact = bool(case.get("exact"))
 
     def bad(clause: str, why: str) -> None:
-        ctx.violation(clause, case, {"why": why, "observed": obs})
+        if whole is None:
+            ctx.violation(clause, case, {"why": why, "observed": obs})
+        else:
+            ctx.violation(clause, whole, {"why": f"request {index} of the concurrent case: {why}", "request": index,
+                                          "observed": obs})
 
     calls = obs["calls"]
     if obs["type"] not in ("Success", "PartialFailure"):
@@ -258,6 +330,9 @@ class Batch:
     def run_group(self, kind: str, topo: dict, data: dict, cases: list[dict]) -> None:
         observed = g.run_manager_cases(kind, topo, data, cases)
         for case, obs in zip(cases, observed):
+            if case["kind"] == "concurrent":
+                self.concurrent(case, obs)
+                continue
             tags = oracle(self.ctx, case, obs)
             nontrivial = any(t.startswith("call:") and t != "call:ok" for t in tags) or "excess" in tags
             self.ctx.case(case, tags=sorted(tags), nontrivial=nontrivial)
@@ -267,11 +342,33 @@ class Batch:
                 self.impls.append(impl_out(obs))
                 self.exact.append(bool(case.get("exact")))
 
+    def concurrent(self, case: dict, obs: dict) -> None:
+        tags = {"concurrent", "concurrent:" + case["mgr"], f"concurrent:{len(case['reqs'])}-requests"}
+        if overlaps(case):
+            tags.add("concurrent:arrival-while-calls-pending")
+        if any(Fraction(r["P"]) > 0 for r in case["reqs"]) and any(Fraction(r["P"]) < 0 for r in case["reqs"]):
+            tags.add("concurrent:mixed-signs")
+        if obs["stray_results"]:
+            self.ctx.violation("no-result", case, {"why": f"{obs['stray_results']} result(s) that belong to none of the "
+                                                          "requests (or a second result for one request)", "observed": obs})
+        nontrivial = False
+        for k, (sub, o) in enumerate(zip(case["reqs"], obs["concurrent"])):
+            sub = dict(sub, exact=case.get("exact", sub.get("exact")))
+            t = oracle(self.ctx, sub, o, whole=case, index=k)
+            nontrivial = nontrivial or any(x.startswith("call:") and x != "call:ok" for x in t) or "excess" in t
+            tags |= {x for x in t if x not in ("pv", "battery")}
+            mc = model_case(sub, o)
+            if mc is not None:
+                self.mcases.append(mc)
+                self.impls.append(impl_out(o))
+                self.exact.append(bool(sub.get("exact")))
+        self.ctx.case(case, tags=sorted(tags), nontrivial=nontrivial or "concurrent:arrival-while-calls-pending" in tags)
+
     def add(self, cases: list[dict]) -> None:
         """Group by fake microgrid and run."""
         groups: dict[str, list[dict]] = {}
         for c in cases:
-            key = "pv" if c["kind"] == "pv" else canon([c["topo"], c["data"]])
+            key = "pv" if "pv" in (c["kind"], c.get("mgr")) else canon([c["topo"], c["data"]])
             groups.setdefault(key, []).append(c)
         for key, cs in groups.items():
             for k in range(0, len(cs), 150):
@@ -346,7 +443,9 @@ def run(ctx: Ctx) -> None:
     for k in range(n):
         rng = ctx.subrng("case", k)
         x = k % 10
-        if x < 4:
+        if k % 5 == 0:
+            cases.append(gen_concurrent_pv(rng) if k % 10 == 0 else gen_concurrent_battery(rng))
+        elif x < 4:
             cases.append(gen_pv(rng))
         elif x < 8:
             cases.append(gen_battery_stub(rng, rng.choice(BAT_TOPOLOGIES)))
@@ -362,7 +461,8 @@ def run(ctx: Ctx) -> None:
 def replay(ctx: Ctx, data: dict) -> None:
     python_flags()
     case = data.get("case")
-    if not case or "kind" not in case or "P" not in case or ("topo" not in case and "invs" not in case):
+    if not case or "kind" not in case or (case["kind"] != "concurrent" and (
+            "P" not in case or ("topo" not in case and "invs" not in case))):
         return run(ctx)
     batch = Batch(ctx)
     batch.add([case])
